@@ -19,7 +19,7 @@ OUTSIDE = ['n > 3; non-diagonal inertias', 'positive definiteness for n = 3 is t
            'qd.c = 1/2 qd^T Mdot qd and g = grad V, not simulated', 'Arm.inverseDynamicsC (hard-coded 6 joints, 36x36 inverse): concrete sampling only']
 ASSUMPTIONS = ['np.linalg.inv: exact adjugate for n <= 3 under non-singularity', 'formal differentiation on the normal form']
 EXPLORER_DEFAULTS = {'quick': dict(prove_timeout_ms=30000, time_budget_s=900, max_paths=40, max_decisions=100),
-                     'thorough': dict(prove_timeout_ms=120000, time_budget_s=3000, max_paths=100, max_decisions=150)}
+                     'thorough': dict(prove_timeout_ms=120000, time_budget_s=1200, max_paths=100, max_decisions=150)}
 TOL = '1e-8'
 
 CHAINS = {
